@@ -16,7 +16,7 @@ ID = "C19"
 LEVEL = "model_checking"
 MIN_OUTCOMES = 2
 MANIFEST = {
-    'text': 'Every project directory over the recognised files (5^5*8 quick, 7^5*8 thorough) is built (unrelated prior content includes [tool.*] tables in the dedicated TOML files, near-miss INI sections, CRLF files) and the history init --dry; init; show; edit; show; init; init --dry is executed on the real CLI with every step checked: complete enumeration of the stated finite space, so the property holds for all of it, not for a sample.',
+    'text': 'Every project directory over the recognised files (5^5*8 quick, 7^5*8 thorough) is built (unrelated prior content includes [tool.*] tables in the dedicated TOML files, near-miss INI sections, colon-style INI keys, CRLF files) and the history init --dry; init; show; edit; show; init; init --dry is executed on the real CLI with every step checked: complete enumeration of the stated finite space, so the property holds for all of it, not for a sample.',
     'note': 'clock pinned via bumpver.utils.now/version.TODAY; only top-level files; invalid existing sections not enumerated',
     'technique': 'explicit-state exploration: exhaustive enumeration of initial directory states x fixed operation history on the real CLI',
     'design_ref': 'DESIGN.md section 4, C19',
